@@ -512,3 +512,16 @@ VARIANTS = [
             "    if source != initial_content and (\n        core.is_valid_python(source) or not core.is_valid_python(initial_content)\n    ):\n        with open(filename, \"w\", encoding=\"utf-8\") as stream:\n            stream.write(source)\n\n        return True\n",
             "    if source == initial_content:\n        return 0\n    if core.is_valid_python(source) or not core.is_valid_python(initial_content):\n        with open(filename, \"w\", encoding=\"utf-8\") as stream:\n            stream.write(source)\n\n        return True\n"),
 ]
+
+META = {
+    "design_ref": "DESIGN.md section 3, C03",
+    "technique": "path-condition must-analysis (rollback dominance, write guard) + interprocedural safe-text summary",
+    "level_text": ("Decides on the current source that the scheduled rewrite back-ends (_apply_rewrites, _replace_nodes, "
+                   "fix_import_spacing, the fix/chain wrappers) can only return their input or a text that passed "
+                   "core.is_valid_python, that file writes are guarded by changed-and-(valid-or-was-invalid), and that "
+                   "the validity oracle answers True only after a successful parse. It does not decide that direct "
+                   "editors and layout stages emit parsable text (value-level); those stages are enumerated as the "
+                   "unguarded surface."),
+    "level_note": ("Trusted: CPython ast; the anchor table of rollback back-ends; the path-condition engine (facts are "
+                   "only lost at joins, so a failed obligation has a syntactic path without an establishing test)."),
+}
